@@ -373,6 +373,22 @@ def _finish_c02(scn, res, it, top, bad, build_exc, probe, sched):
         probe("c02_rejected_at_build")
         return res
     outcomes = {}
+    if hash64(scn.get("seed"), "listcall") % 3 == 0:
+        # the ill-formed design is exported in a list, next to a module that an earlier call has
+        # already elaborated: no package either
+        for hop in (["module", 990, "Helper990", "proc"], ["sig", 990, "hp", 1, "p", "n"], ["end", 990]):
+            it.run(hop)
+        it.run(["to_proto", [990], True])
+        order = [990, top] if hash64(scn.get("seed"), "listorder") % 2 else [top, 990]
+        r = it.run(["to_proto", order, False])
+        probe("c02_exported_in_list_with_elaborated_module")
+        if r["ok"]:
+            cv = netview.closed_violations(r["pkg"], prim_ports(), check_tools=False)
+            if cv:
+                res["findings"].append({"prop": "C06", "clause": "closed", "detail": cv[:4] + [f"(exported in a list with an already elaborated module, from a design with a planted fault: {bad})"]})
+            res["findings"].append({"prop": "C02", "clause": "accepted:" + cls, "detail": [f"ill-formed design ({cls}: {bad[1]}) was exported when given in a list with an already elaborated module"]})
+            res["sched"] = sched.stats()
+            return res
     # elaborate must raise for every class detectable without exporting
     for call in (["to_proto", [top], True], ["netlist", [top], "spice", True], ["elaborate", [top], True]):
         r = it.run(call)
